@@ -295,6 +295,92 @@ theorem device_read_iter_never_traps (d : List Nat) (v : Dev) (h : devRead d = .
   obtain ⟨vs, hv, _⟩ := device_iter_exact v (device_read_words d v h).1
   simp [hv]
 
+/-! ## script lists, script tags -/
+
+/-- **`index_for_tag` returns only an index whose record carries the tag** (for any record order) -/
+theorem index_for_tag_sound (tags : List Nat) (t i : Nat) (hlen : tags.length ≤ 65536)
+    (h : indexForTag tags t = some i) : i < tags.length ∧ tags[i]? = some t := by
+  unfold indexForTag at h
+  cases hb : binarySearchBy tags.length (fun i => natCmp (tags.getD i 0) t) with
+  | err j => rw [hb] at h; cases h
+  | ok j =>
+    rw [hb] at h
+    have ⟨hj, he⟩ := bs_ok hb
+    have he' := natCmp_eq he
+    injection h with h
+    have : j % 65536 = j := Nat.mod_eq_of_lt (by omega)
+    rw [this] at h
+    subst h
+    exact ⟨hj, by rw [getD_of_lt tags j 0 hj, he']⟩
+
+theorem selectLoop_sound (recs : List Nat) (hlen : recs.length ≤ 65536) :
+    ∀ (ts : List Nat) (t i : Nat), selectLoop recs ts = some (t, i) → t ∈ ts ∧ i < recs.length ∧ recs[i]? = some t := by
+  intro ts
+  induction ts with
+  | nil => intro t i h; simp [selectLoop] at h
+  | cons a rest ih =>
+    intro t i h
+    unfold selectLoop at h
+    cases hx : indexForTag recs a with
+    | some j =>
+      rw [hx] at h
+      injection h with h
+      injection h with h1 h2
+      subst h1; subst h2
+      have := index_for_tag_sound recs a j hlen hx
+      exact ⟨by simp, this.1, this.2⟩
+    | none =>
+      rw [hx] at h
+      have := ih t i h
+      exact ⟨by simp [this.1], this.2.1, this.2.2⟩
+
+/-- **`ScriptList::select` returns a valid record index whose tag is the selected tag**; a
+non-fallback selection is one of the requested tags, a fallback is `DFLT` / `dflt` / `latn`.  Both loops
+run over their tag lists once (structural recursion): at most `tags.len() + 3` binary searches. -/
+theorem select_sound (recs tags : List Nat) (hlen : recs.length ≤ 65536) (t i : Nat) (fb : Bool)
+    (h : select recs tags = some (t, i, fb)) :
+    i < recs.length ∧ recs[i]? = some t ∧
+    (fb = false → t ∈ tags) ∧
+    (fb = true → t = tg 'D' 'F' 'L' 'T' ∨ t = tg 'd' 'f' 'l' 't' ∨ t = tg 'l' 'a' 't' 'n') := by
+  unfold select at h
+  cases h1 : selectLoop recs tags with
+  | some p =>
+    obtain ⟨t', i'⟩ := p
+    rw [h1] at h
+    injection h with h
+    injection h with ha hb
+    injection hb with hb hc
+    subst ha; subst hb; subst hc
+    have := selectLoop_sound recs hlen tags _ _ h1
+    exact ⟨this.2.1, this.2.2, fun _ => this.1, fun hf => by cases hf⟩
+  | none =>
+    rw [h1] at h
+    cases h2 : selectLoop recs [tg 'D' 'F' 'L' 'T', tg 'd' 'f' 'l' 't', tg 'l' 'a' 't' 'n'] with
+    | none => rw [h2] at h; cases h
+    | some p =>
+      obtain ⟨t', i'⟩ := p
+      rw [h2] at h
+      injection h with h
+      injection h with ha hb
+      injection hb with hb hc
+      subst ha; subst hb; subst hc
+      have := selectLoop_sound recs hlen _ _ _ h2
+      refine ⟨this.2.1, this.2.2, fun hf => (by cases hf), fun _ => ?_⟩
+      simpa using this.1
+
+/-- **`ScriptTags::from_unicode` never indexes outside its `[Tag; 3]`** and `as_slice` (`&tags[..len]`)
+never slices past it: for EVERY script tag the result has 1 to 3 tags (`len ≤ 3` by construction: at
+most the version-3 tag, the new tag and the old tag). -/
+theorem script_tags_from_unicode_safe (u : Nat) :
+    ∃ ts, scriptTagsFromUnicode u = .val ts ∧ 1 ≤ ts.length ∧ ts.length ≤ 3 := by
+  unfold scriptTagsFromUnicode
+  cases hn : newTagFromUnicode u with
+  | none => simp [setTag, Res.bind]
+  | some nt =>
+    by_cases hm : nt ≠ tg 'm' 'y' 'm' '2'
+    · simp [hm, setTag, Res.bind]
+    · simp [hm, setTag, Res.bind]
+
 /-! ## non-vacuity -/
 
 /-- the spec examples of layout.rs -/
@@ -318,5 +404,14 @@ example : (devRead [0, 7, 0, 13, 0, 3, 1, 244, 30, 245, 101, 8, 42, 0]).toOption
 /-- `start_size > end_size`: no words, no values -/
 example : (devRead [0, 1, 0, 0, 0, 1]).toOption.map devIter = some (.val []) := by decide
 example : iterPackedValues 0x8800 1 3 = .val [-2, 0, -2] ∧ iterPackedValues 0x1234 0 3 = .trap := by decide
+
+example : scriptTagsFromUnicode (tg 'B' 'e' 'n' 'g') = .val [tg 'b' 'n' 'g' '3', tg 'b' 'n' 'g' '2', tg 'b' 'e' 'n' 'g'] := by
+  decide +kernel
+example : scriptTagsFromUnicode (tg 'M' 'y' 'm' 'r') = .val [tg 'm' 'y' 'm' '2', tg 'm' 'y' 'm' 'r'] := by decide +kernel
+example : scriptTagsFromUnicode (tg 'Y' 'i' 'i' 'i') = .val [tg 'y' 'i' ' ' ' '] := by decide +kernel
+example : select [tg 'D' 'F' 'L' 'T', tg 'c' 'y' 'r' 'l', tg 'l' 'a' 't' 'n'] [tg 't' 'h' 'a' 'i', tg 'l' 'a' 't' 'n'] =
+    some (tg 'l' 'a' 't' 'n', 2, false) := by decide +kernel
+example : select [tg 'D' 'F' 'L' 'T', tg 'c' 'y' 'r' 'l'] [tg 't' 'h' 'a' 'i'] = some (tg 'D' 'F' 'L' 'T', 0, true) := by
+  decide +kernel
 
 end FontVerif.C01HandLayout
